@@ -231,6 +231,25 @@ Record reduced := {
   r_old : list nat;                  (* nodes_old_names *)
   r_bb : list Z; r_cc : list (list (nat * Z)) }.
 
+(* the adjacency lists c of emd_hat_impl.hpp in push_back order: sources 0..N-1, sinks N..2N-1,
+   threshold node 2N, artificial node 2N+1 *)
+Definition red_c (N : nat) (maxC : Z) (regular : nat -> nat -> bool) (C : nat -> nat -> Z) : list (list (nat * Z)) :=
+  let idx := seq 0 N in
+  let TH := (2 * N)%nat in
+  let AR := (2 * N + 1)%nat in
+  let c_src := fun i => map (fun j => ((j + N)%nat, C i j)) (filter (regular i) idx)
+                        ++ [(TH, 0); (AR, maxC + 1)] in
+  map c_src idx ++ map (fun _ => [(AR, maxC + 1)]) idx
+  ++ [map (fun j => ((j + N)%nat, maxC)) idx ++ [(AR, maxC + 1)]]
+  ++ [map (fun i => (i, maxC + 1)) (seq 0 AR)].
+
+(* renaming of the arcs to the kept nodes *)
+Definition rename_cc (old : list nat) (c : list (list (nat * Z))) : list (list (nat * Z)) :=
+  map (fun v => flat_map (fun tc => match index_of (fst tc) old O with
+                                    | Some t => [(t, snd tc)]
+                                    | None => []
+                                    end) (nth v c [])) old.
+
 Definition reduce (Pc Qc : list Z) (Cc : list (list Z)) (emp : Z) : reduced :=
   let N := length Pc in
   let sumP := zsum Pc in
@@ -247,11 +266,7 @@ Definition reduce (Pc Qc : list Z) (Cc : list (list Z)) (emp : Z) : reduced :=
   let pen := if emp =? -1 then maxC else emp in
   let regular := fun i j => negb (nz P i =? 0) && negb (nz Q j =? 0) && negb (C i j =? maxC) in
   (* c: adjacency lists in push_back order *)
-  let c_src := fun i => map (fun j => ((j + N)%nat, C i j)) (filter (regular i) idx)
-                        ++ [(TH, 0); (AR, maxC + 1)] in
-  let c := map c_src idx ++ map (fun _ => [(AR, maxC + 1)]) idx
-           ++ [map (fun j => ((j + N)%nat, maxC)) idx ++ [(AR, maxC + 1)]]
-           ++ [map (fun i => (i, maxC + 1)) (seq 0 AR)] in
+  let c := red_c N maxC regular C in
   let b := P ++ map Z.opp Q ++ [- diff; 0] in
   let in_set := fun v => if (v <? N)%nat then existsb (regular v) idx
                          else existsb (fun i => regular i (v - N)%nat) idx in
@@ -262,10 +277,7 @@ Definition reduce (Pc Qc : list Z) (Cc : list (list Z)) (emp : Z) : reduced :=
   let kept := filter keep (seq 0 (2 * N)) in
   let old := kept ++ [TH; AR] in
   let bb := map (nz b) kept ++ [bT; 0] in
-  let cc := map (fun v => flat_map (fun tc => match index_of (fst tc) old O with
-                                              | Some t => [(t, snd tc)]
-                                              | None => []
-                                              end) (nth v c [])) old in
+  let cc := rename_cc old c in
   {| r_N := N; r_swap := swap; r_diff := diff; r_maxC := maxC; r_pen := pen; r_pre := pre;
      r_old := old; r_bb := bb; r_cc := cc |}.
 
